@@ -1436,6 +1436,16 @@ impl Server {
                     Some(RequestType::HardStop(_)) => {
                         let req_id = request.id.clone();
                         self.notify(request);
+                        // The answers to the requests read before this one are
+                        // still queued and the loop that flushes the queue ends
+                        // here: write them out before the final answer.
+                        QUEUE.with(|queue| {
+                            for response in queue.borrow_mut().drain(..) {
+                                if let Err(e) = self.channel.write_message(&response) {
+                                    error!("Could not write response to the main process: {}", e);
+                                }
+                            }
+                        });
                         if let Err(e) = self.channel.write_message(&WorkerResponse::ok(req_id)) {
                             error!("Could not send ok response to the main process: {}", e);
                         }
